@@ -54,6 +54,8 @@ def handle : Handler := fun j a => do
           -- a reachable stale master is marked for recovery in the same pass, whatever statement failed on it
           if st.isMaster && !obs.contains "setRecovery" && (jStr failj "kind").toOption.getD "" != "dcs" then
             a := a.violationSig "C10:stale-master-not-marked-for-recovery" s!"{h}: {obs} raw={raw} in {j.compress}"
+            -- the same clause is part of C11 ("found claiming to be master beside the recorded one ⇒ marked")
+            a := a.violationSig "C11:host-claiming-to-be-master-not-marked-for-recovery" s!"{h}: {obs} raw={raw} in {j.compress}"
           if fHost != h && obs.any (·.startsWith "OTHER") then a := a.violationSig "C10:unexpected-statement-in-repair" s!"{h}: {obs} in {j.compress}"
           if obs.any (·.startsWith "resetSlaveAlgorithm") || raw.contains "reset_replica_all" then
             let allowed := cfg.aggressive && (match before with
@@ -70,6 +72,18 @@ def handle : Handler := fun j a => do
   if !decoy.isEmpty then a := a.violationSig "C10:statement-sent-to-unregistered-host" s!"{decoy} in {j.compress}"
   if !selfSrc.isEmpty then a := a.violationSig "C10:server-pointed-at-itself" j.compress
   if !mw.isEmpty then a := a.violationSig "C10:recorded-master-changed-by-repair" j.compress
+  -- the configuration of a replica is reset at most `max_attempts` times and never twice within the cooldown, counted on
+  -- the statements the server executed (whether or not the rest of the attempt succeeded) since the host's repair
+  -- bookkeeping was last started
+  match jOpt j "resets" with
+  | some (.obj kv) =>
+    for (h, v) in kv.toList do
+      let ts := (v.getArr?.toOption.getD #[]).toList.filterMap fun x => x.getInt?.toOption
+      if (ts.length : Int) > cfg.maxAttempts then
+        a := a.violationSig "C10:configuration-reset-more-often-than-the-attempt-limit" s!"{h}: {ts.length} resets, limit {cfg.maxAttempts} in {j.compress}"
+      if (ts.zip ts.tail).any (fun (x, y) => y - x < cfg.cooldown) then
+        a := a.violationSig "C10:configuration-reset-again-within-the-cooldown" s!"{h}: {ts} in {j.compress}"
+  | _ => pure ()
   -- convergence on fault-free runs: at the last of >= 5 passes with time passing every reachable HA node is
   -- read-only and a running replica of the master, or in one of the property's sinks
   let pass ← jNat j "pass"
